@@ -136,7 +136,82 @@ inductive PyVal where
   | tup (xs : List PyVal)
   | list (xs : List PyVal)
   | dict (kvs : List (PyVal × PyVal))
-  deriving Inhabited, BEq, Repr
+  deriving Inhabited, Repr
+
+/-! equality on `PyVal` is written out (and proved lawful) because `deriving DecidableEq` does not handle the
+    nested occurrence in `List` -/
+mutual
+def PyVal.beq : PyVal → PyVal → Bool
+  | .none, .none => true
+  | .bool a, .bool b => a == b
+  | .int a, .int b => a == b
+  | .str a, .str b => a == b
+  | .tup a, .tup b => PyVal.beqList a b
+  | .list a, .list b => PyVal.beqList a b
+  | .dict a, .dict b => PyVal.beqPairs a b
+  | _, _ => false
+def PyVal.beqList : List PyVal → List PyVal → Bool
+  | [], [] => true
+  | x :: xs, y :: ys => PyVal.beq x y && PyVal.beqList xs ys
+  | _, _ => false
+def PyVal.beqPairs : List (PyVal × PyVal) → List (PyVal × PyVal) → Bool
+  | [], [] => true
+  | (a, b) :: xs, (c, d) :: ys => PyVal.beq a c && PyVal.beq b d && PyVal.beqPairs xs ys
+  | _, _ => false
+end
+
+instance : BEq PyVal := ⟨PyVal.beq⟩
+
+mutual
+theorem PyVal.eq_of_beq : ∀ a b : PyVal, PyVal.beq a b = true → a = b
+  | .none, .none, _ => rfl
+  | .bool a, .bool b, h => by simp [PyVal.beq] at h; rw [h]
+  | .int a, .int b, h => by simp [PyVal.beq] at h; rw [h]
+  | .str a, .str b, h => by simp [PyVal.beq] at h; rw [h]
+  | .tup a, .tup b, h => by simp [PyVal.beq] at h; rw [PyVal.eq_of_beqList a b h]
+  | .list a, .list b, h => by simp [PyVal.beq] at h; rw [PyVal.eq_of_beqList a b h]
+  | .dict a, .dict b, h => by simp [PyVal.beq] at h; rw [PyVal.eq_of_beqPairs a b h]
+  | .none, .bool _, h | .none, .int _, h | .none, .str _, h | .none, .tup _, h | .none, .list _, h | .none, .dict _, h => by simp [PyVal.beq] at h
+  | .bool _, .none, h | .bool _, .int _, h | .bool _, .str _, h | .bool _, .tup _, h | .bool _, .list _, h | .bool _, .dict _, h => by simp [PyVal.beq] at h
+  | .int _, .none, h | .int _, .bool _, h | .int _, .str _, h | .int _, .tup _, h | .int _, .list _, h | .int _, .dict _, h => by simp [PyVal.beq] at h
+  | .str _, .none, h | .str _, .bool _, h | .str _, .int _, h | .str _, .tup _, h | .str _, .list _, h | .str _, .dict _, h => by simp [PyVal.beq] at h
+  | .tup _, .none, h | .tup _, .bool _, h | .tup _, .int _, h | .tup _, .str _, h | .tup _, .list _, h | .tup _, .dict _, h => by simp [PyVal.beq] at h
+  | .list _, .none, h | .list _, .bool _, h | .list _, .int _, h | .list _, .str _, h | .list _, .tup _, h | .list _, .dict _, h => by simp [PyVal.beq] at h
+  | .dict _, .none, h | .dict _, .bool _, h | .dict _, .int _, h | .dict _, .str _, h | .dict _, .tup _, h | .dict _, .list _, h => by simp [PyVal.beq] at h
+theorem PyVal.eq_of_beqList : ∀ a b : List PyVal, PyVal.beqList a b = true → a = b
+  | [], [], _ => rfl
+  | x :: xs, y :: ys, h => by
+    simp [PyVal.beqList] at h
+    rw [PyVal.eq_of_beq x y h.1, PyVal.eq_of_beqList xs ys h.2]
+  | [], _ :: _, h | _ :: _, [], h => by simp [PyVal.beqList] at h
+theorem PyVal.eq_of_beqPairs : ∀ a b : List (PyVal × PyVal), PyVal.beqPairs a b = true → a = b
+  | [], [], _ => rfl
+  | (a, b) :: xs, (c, d) :: ys, h => by
+    simp [PyVal.beqPairs] at h
+    rw [PyVal.eq_of_beq a c h.1.1, PyVal.eq_of_beq b d h.1.2, PyVal.eq_of_beqPairs xs ys h.2]
+  | [], _ :: _, h | _ :: _, [], h => by simp [PyVal.beqPairs] at h
+end
+
+mutual
+theorem PyVal.beq_refl : ∀ a : PyVal, PyVal.beq a a = true
+  | .none => rfl
+  | .bool a => by simp [PyVal.beq]
+  | .int a => by simp [PyVal.beq]
+  | .str a => by simp [PyVal.beq]
+  | .tup a => by simp [PyVal.beq, PyVal.beqList_refl a]
+  | .list a => by simp [PyVal.beq, PyVal.beqList_refl a]
+  | .dict a => by simp [PyVal.beq, PyVal.beqPairs_refl a]
+theorem PyVal.beqList_refl : ∀ a : List PyVal, PyVal.beqList a a = true
+  | [] => rfl
+  | x :: xs => by simp [PyVal.beqList, PyVal.beq_refl x, PyVal.beqList_refl xs]
+theorem PyVal.beqPairs_refl : ∀ a : List (PyVal × PyVal), PyVal.beqPairs a a = true
+  | [] => rfl
+  | (a, b) :: xs => by simp [PyVal.beqPairs, PyVal.beq_refl a, PyVal.beq_refl b, PyVal.beqPairs_refl xs]
+end
+
+instance : LawfulBEq PyVal where
+  eq_of_beq := PyVal.eq_of_beq _ _
+  rfl := PyVal.beq_refl _
 
 def hexDigit (n : Nat) : Char := if n < 10 then Char.ofNat (48 + n) else Char.ofNat (87 + n)
 def toHex (n : Nat) : String :=
